@@ -71,7 +71,8 @@ EXHAUSTIVE = (
 )
 
 VOL_CAP = 7158278  # documented upper bound of a script-command volume
-LCS = ["Water", "", "PowerSuck", "DMSO free dispense", "Water, wet contact", "Ethanol_70%", "LC-µL (1)"]
+LCS = ["Water", "", "PowerSuck", "DMSO free dispense", "Water, wet contact", "Ethanol_70%", "LC-µL (1)",
+       " DMSO contact wet", "Water free dispense ", "  ", "\tTabbed"]
 ANY = {"__tip__": "Any"}
 _ID = re.compile(r"^([A-Z])([0-9]{2})$")
 _ROWS = "ABCDEFGHIJKLMNOPQRSTUVWXYZ"
